@@ -535,9 +535,12 @@ fn first_bracket_nested_too_deep(input_str: &str) -> Option<usize> {
                     i += 1;
                 }
             }
-            b'#' if bytes[i..].starts_with(b"###") => {
+            // an unterminated `###` is an ordinary line comment
+            b'#' if bytes[i..].starts_with(b"###")
+                && bytes[i + 3..].windows(3).any(|w| w == b"###") =>
+            {
                 i += 3;
-                while i < bytes.len() && !bytes[i..].starts_with(b"###") {
+                while !bytes[i..].starts_with(b"###") {
                     i += 1;
                 }
                 i += 2;
